@@ -412,13 +412,29 @@ def r9_taken_callers_are_answered(ctx):
     R.floor("C09.R9", n, 2, "reply channels taken out of the manager in the response path")
 
 
+
+def rbuilder_client_settings_survive(ctx):
+    """`no future stays pending longer than the request timeout`: the configured request timeout (and every other client
+    setting) survives the builders' self-rebuilding steps (set_rpc_middleware, ...) (= C05.R8)"""
+    from . import c05
+    c05.r8_client_builder_fields(ctx)
+
+
+def rpure_refused_insert_changes_nothing(ctx):
+    """`no background task panics for any bytes the server may send`: a refused insert into the request manager leaves its
+    tables as they were - a half-applied insert (reverse lookup overwritten, entry not created) makes a later server
+    message hit an `expect` on the tables' consistency in the read task (= C05.R6)"""
+    from . import c05
+    c05.r6_refused_insert_is_pure(ctx)
+
+
 def rsel_shutdown_is_a_select_branch(ctx):
     """the background tasks notice the other task's end while they wait"""
     from .common import shutdown_is_a_select_branch
     shutdown_is_a_select_branch(ctx, "C09.SEL")
 
 
-RULES = [rsel_shutdown_is_a_select_branch, r9_taken_callers_are_answered, r1_cause_before_close, r2_no_unchecked_arith_on_peer_numbers, r3_errors_reach_watcher, r4_frontend_mapping, r5_read_error, r6_no_relock, r7_manager_not_cleared_wholesale, r8_no_panicky_text_surgery, rcancel_receive_is_cancel_safe]
+RULES = [rbuilder_client_settings_survive, rpure_refused_insert_changes_nothing, rsel_shutdown_is_a_select_branch, r9_taken_callers_are_answered, r1_cause_before_close, r2_no_unchecked_arith_on_peer_numbers, r3_errors_reach_watcher, r4_frontend_mapping, r5_read_error, r6_no_relock, r7_manager_not_cleared_wholesale, r8_no_panicky_text_surgery, rcancel_receive_is_cancel_safe]
 
 LEVEL_TEXT = (
     "Structural necessary conditions of clean failure handling decided from the type-checked program: the happens-before "
